@@ -6,6 +6,8 @@
 (*   {"ev":"Store","kind":k,"b":b}  boundary b is durable                   *)
 (*   {"ev":"Use","kind":k,"lo":l,"hi":h}  values l..h were handed out/used  *)
 (*   {"ev":"Restart","kind":k}      restart from storage                    *)
+(*   {"ev":"Life","sends":n,"on_wire":m,"error":e}  (end-to-end run) one life *)
+(*        of the node ended: every message it was asked to send was sent    *)
 (***************************************************************************)
 EXTENDS CountersProp, TLC, Json, IOUtils, Sequences
 Rec == ndJsonDeserialize(IOEnv.TRACE)
@@ -17,7 +19,8 @@ Reset   == IsEvent("Reset") /\ pst' = Fresh
 Store   == IsEvent("Store") /\ pst' = AfterStore(Rec[i].b, pst)
 Use     == IsEvent("Use") /\ UseAllowed(Rec[i].kind, Rec[i].lo, Rec[i].hi, pst) /\ pst' = AfterUse(Rec[i].lo, Rec[i].hi, pst)
 Restart == IsEvent("Restart") /\ UNCHANGED pst
-Next == Reset \/ Store \/ Use \/ Restart
+Life    == IsEvent("Life") /\ Rec[i].error = "" /\ Rec[i].on_wire = Rec[i].sends /\ UNCHANGED pst
+Next == Reset \/ Store \/ Use \/ Restart \/ Life
 Spec == Init /\ [][Next]_vars
 TraceAccepted ==
   LET d == TLCGet("stats").diameter IN
